@@ -1063,6 +1063,21 @@ func (rn *runner) runBehaviour(b behaviour) {
 				if prevK == nil || prevK.GSOut.None {
 					continue
 				}
+			case "SMEnter":
+				// delivered only if the state machine's contract holds on the REAL state: it moves forwards and is
+				// never ahead of the mirror by a height or by more than one round
+				var a smEnterArgs
+				must(json.Unmarshal(st.Args, &a))
+				if prevK == nil {
+					continue
+				}
+				fwd := a.H > prevK.SMReH || (a.H == prevK.SMReH && a.R > prevK.SMReR)
+				within := a.H <= prevK.V.Height && (a.H != prevK.V.Height || a.R <= prevK.V.Round+1) &&
+					(a.H != prevK.C.Height || a.R <= prevK.C.Round+1) &&
+					(a.H >= prevK.C.Height || prevK.C.Height == 0) && (a.H != prevK.V.Height || a.R >= prevK.V.Round)
+				if !fwd || !within {
+					continue
+				}
 			default:
 				continue
 			}
